@@ -53,8 +53,9 @@ func (f *IntegerLength) Call(s *slip.Scope, args slip.List, depth int) (result s
 	case *slip.Bignum:
 		bi := (*big.Int)(ta)
 		if bi.Sign() < 0 {
-			bi = bi.Add(bi, big.NewInt(1))
-			bi = bi.Neg(bi)
+			// The complement, -(n+1), in a new big.Int so that the argument
+			// is not modified.
+			bi = new(big.Int).Not(bi)
 		}
 		result = slip.Fixnum(bi.BitLen())
 	default:
